@@ -8,6 +8,8 @@ before and after."""
 from ECAgent.Core import Agent, AgentNotFoundError, Component, DuplicateAgentError, Environment, Model
 from ECAgent.Environments import GridWorld, PositionComponent
 
+from simkit.stepgate import StepGate
+
 from .worlds import RefWorld, gen_world, get_pos, make_world
 
 PROPERTY = "C04"
@@ -19,7 +21,7 @@ RULE = ("plain, continuous and grid environments; a pool of agent objects with d
         "(remove, strict lookup) and oob(axis, side, near|far) generated against the current state; non-trivial = >=3 "
         "residents at some point, >=1 removal from the middle followed by iteration and >=2 different rejection kinds "
         "fired; distinct = sequence of (op, outcome, population)"
-        "; also: continuous extents in (0,1), fractional out-of-bounds coordinates in grids, worlds that are not model.environment, an environment without any model, callers that edit returned listings / use the random helpers, model lifecycle ops, agents that are environments themselves (own components, inhabitants, population changing while resident)")
+        "; also: continuous extents in (0,1), fractional out-of-bounds coordinates in grids, worlds that are not model.environment, an environment without any model, callers that edit returned listings / use the random helpers, model lifecycle ops, agents that are environments themselves (own components, inhabitants, population changing while resident), stretches of the history issued from inside a running timestep")
 COMPONENTS = {"real": ["ECAgent.Core.Environment add_agent / remove_agent / get_agent / get_agents / __len__ / __iter__",
                        "SpaceWorld / DiscreteWorld / GridWorld / LineWorld add_agent / remove_agent",
                        "SystemManager component pools (observed)"],
@@ -27,7 +29,7 @@ COMPONENTS = {"real": ["ECAgent.Core.Environment add_agent / remove_agent / get_
 PROBES = ["dup_same_object", "dup_other_object", "unknown_remove", "unknown_strict_lookup", "oob_x_lo", "oob_x_hi",
           "oob_y_lo", "oob_y_hi", "oob_z_lo", "oob_z_hi", "oob_far", "reject_on_empty_environment", "remove_from_middle",
           "readd_after_remove", "plain_env", "spatial_env", "model_lifecycle_op", "caller_scrambles_listing", "oob_fractional_in_grid", "environment_without_model",
-          "agent_is_an_environment", "nested_population_changed_while_resident"]
+          "agent_is_an_environment", "nested_population_changed_while_resident", "ops_from_inside_a_timestep"]
 TECHNIQUE = "deterministic simulation: every rejection injected at states reached by seeded add/remove histories, full observable snapshot compared before/after, insertion-ordered map reference"
 LEVEL_TEXT = ("Seeded search over add/remove histories with colliding ids; after every operation length, iteration, listing and "
               "lookup must agree with an insertion-ordered reference; each injected rejection must raise the documented class "
@@ -42,7 +44,7 @@ class K0(Component):
     pass
 
 
-class K1(Component):
+class K1(K0):           # a subclass of K0: components are keyed by their exact class
     pass
 
 
@@ -59,7 +61,7 @@ def generate(rng, tier):
     orphan = world["kind"] == "plain" and rng.random() < 0.2
     ids = [f"i{j}" for j in range(rng.randint(1, 5))]
     if rng.random() < 0.15:
-        ids[rng.randrange(len(ids))] = ""          # the empty string is an id like any other (and falsy)
+        ids[rng.randrange(len(ids))] = rng.choice(["", "", "{x}", "%s", "{}"])    # falsy, or with format / template syntax
     pool = [{"id": rng.choice(ids), "comps": sorted(rng.sample(range(3), rng.randint(0, 3)))} for _ in range(rng.randint(2, 16 if tier == "thorough" else 10))]
     ops = []
     for _ in range(rng.randint(5, 80 if tier == "thorough" else 50)):
@@ -98,6 +100,12 @@ def generate(rng, tier):
         for j in nested:
             for _ in range(rng.randint(0, 3)):
                 ops.insert(rng.randint(0, len(ops)), {"op": "nest", "k": j, "what": rng.choice(["add", "add", "remove"])})
+    if rng.random() < 0.25 and len(ops) >= 2:
+        # a stretch of the history is issued from inside a running timestep (by a System, as far as the package can tell)
+        i_ = rng.randint(0, len(ops) - 1)
+        j_ = rng.randint(i_ + 1, len(ops))
+        ops.insert(j_, {"op": "leave_step"})
+        ops.insert(i_, {"op": "enter_step"})
     return {"world": world, "pool": pool, "ops": ops}
 
 
@@ -194,8 +202,17 @@ def execute(sc, ctx):
         if not residents:
             ctx.probe("reject_on_empty_environment")
 
+    gate = StepGate(ctx)
     for op in sc["ops"]:
         kind = op["op"]
+        if kind == "enter_step":
+            gate.enter(env.model)
+            continue
+        if kind == "leave_step":
+            gate.leave()
+            continue
+        if kind == "lifecycle" and ctx.in_step and op.get("what") == "step":
+            continue          # stepping the model from inside its own timestep is re-entrant stepping: outside the statements
         if kind == "add":
             k = op["k"] % len(pool)
             a = objs[k]
@@ -317,5 +334,7 @@ def execute(sc, ctx):
             flags["mid"] = True
             pending_mid = False
         ctx.state([list(residents), kind])
+    gate.leave()
+    check_agreement("after-the-step")
     ctx.nontrivial = flags["three"] and flags["mid"] and len(kinds_fired) >= 2
     ctx.sig = shape[:60]
